@@ -360,8 +360,16 @@ func kcOptBytes(b []byte, present bool) string {
 }
 
 func runKeyCrypt(c *hx.Ctx) {
-	cw := c.NewCaseWriter("From NV Require Import corr.KeyCrypt_corr.", "KeyCrypt_corr.case", "KeyCrypt_corr.check_case", 40)
+	cw := c.NewCaseWriter("From NV Require Import corr.KeyCrypt_corr.", "KeyCrypt_corr.case", "KeyCrypt_corr.check_case", 100)
 	nonceLen, _ := kcGcmSizes()
+	// cases are collected and then written interleaved (light plain-key cases with heavy container cases), so that
+	// the shards coqc evaluates in parallel carry about the same load
+	type kcCase struct {
+		lit, kind string
+		nontriv   bool
+		desc      any
+	}
+	var plain, heavy []kcCase
 
 	// (1) plain key PEM: every unmarshal function x every banner x every length
 	type unFn func([]byte) ([]byte, []byte, cert.Curve, error)
@@ -389,8 +397,8 @@ func runKeyCrypt(c *hx.Ctx) {
 				if err == nil {
 					res = hx.Some(hx.Tuple(hx.N(uint64(curve)), hx.Bool(bytes.Equal(got, key) && bytes.Equal(rest, tail))))
 				}
-				cw.Add(hx.App("KeyCrypt_corr.CUnmarshal", hx.N(uint64(fi)), hx.Str(bn), hx.N(uint64(l)), res), "unmarshal", err == nil,
-					map[string]any{"op": "unmarshal", "fn": fi, "banner": bn, "len": l, "ok": err == nil})
+				plain = append(plain, kcCase{hx.App("KeyCrypt_corr.CUnmarshal", hx.N(uint64(fi)), hx.Str(bn), hx.N(uint64(l)), res), "unmarshal", err == nil,
+					map[string]any{"op": "unmarshal", "fn": fi, "banner": bn, "len": l, "ok": err == nil}})
 			}
 		}
 	}
@@ -411,8 +419,8 @@ func runKeyCrypt(c *hx.Ctx) {
 						res = hx.Some(hx.Tuple(hx.Str(blk.Type), hx.Bool(bytes.Equal(blk.Bytes, key))))
 					}
 				}
-				cw.Add(hx.App("KeyCrypt_corr.CMarshal", hx.N(uint64(fi)), hx.N(uint64(cv)), res), "marshal", text != nil,
-					map[string]any{"op": "marshal", "fn": fi, "curve": cv, "len": l})
+				plain = append(plain, kcCase{hx.App("KeyCrypt_corr.CMarshal", hx.N(uint64(fi)), hx.N(uint64(cv)), res), "marshal", text != nil,
+					map[string]any{"op": "marshal", "fn": fi, "curve": cv, "len": l}})
 			}
 		}
 	}
@@ -422,7 +430,7 @@ func runKeyCrypt(c *hx.Ctx) {
 	for i := 0; i < c.N; i++ {
 		cv := i % 2
 		keyLen := kcKeyLen(cv)
-		if i >= 4 && c.Chance(0.3) { // keys of the wrong length for the curve: encrypt does not mind, decrypt must
+		if i%4 == 3 || (i >= 4 && c.Chance(0.2)) { // keys of the wrong length for the curve: encrypt does not mind, decrypt must
 			keyLen = []int{0, 1, 31, 32, 33, 63, 64, 65}[c.Intn(8)]
 		}
 		key := c.RandBytes(keyLen)
@@ -699,9 +707,11 @@ func runKeyCrypt(c *hx.Ctx) {
 				skipped++
 				continue
 			}
-			curve, got, _, err := cert.DecryptAndUnmarshalSigningPrivateKey(p, tr.text)
+			curve, got, err, panicked := kcDecrypt(p, tr.text)
 			res := hx.None()
-			if err == nil {
+			if panicked { // a panic is not a refusal: reported as an (impossible) result, so that it fails the check
+				res = hx.Some(hx.Tuple(hx.N(99), hx.Bytes(nil)))
+			} else if err == nil {
 				res = hx.Some(hx.Tuple(hx.N(uint64(curve)), hx.Bytes(got)))
 				opened++
 			}
@@ -722,18 +732,39 @@ func runKeyCrypt(c *hx.Ctx) {
 			if lo == 0 {
 				d["opened"], d["kinds"] = opened, kinds
 			}
-			cw.Add(hx.App("KeyCrypt_corr.CEnc", hx.N(uint64(cv)), hx.Bytes(key), hx.Bytes(pass), hx.N(uint64(mem)), hx.N(uint64(par)), hx.N(uint64(it)),
+			heavy = append(heavy, kcCase{hx.App("KeyCrypt_corr.CEnc", hx.N(uint64(cv)), hx.Bytes(key), hx.Bytes(pass), hx.N(uint64(mem)), hx.N(uint64(par)), hx.N(uint64(it)),
 				hx.Str(banner0), hx.Bytes(body0), hx.List(lits[lo:hi])),
-				"container", keyLen == kcKeyLen(cv), d)
+				"container", keyLen == kcKeyLen(cv), d})
+		}
+	}
+	for pi, hi, total := 0, 0, len(plain)+len(heavy); pi+hi < total; {
+		if hi < len(heavy) && (pi >= len(plain) || hi*total <= (pi+hi)*len(heavy)) {
+			k := heavy[hi]
+			cw.Add(k.lit, k.kind, k.nontriv, k.desc)
+			hi++
+		} else {
+			k := plain[pi]
+			cw.Add(k.lit, k.kind, k.nontriv, k.desc)
+			pi++
 		}
 	}
 	cw.Meta("skipped_expensive_trials", skipped)
 	cw.Close("exhaustive: 4 unmarshal functions x 14 banners x key lengths {0,1,31,32,33,63..66,70}; 4 marshal functions x 3 curves; " +
-		"then per encrypted container (both curves alternating, random key/passphrase, Argon2 memory 8..31 KiB, 1..3 lanes, 1..2 passes; 30% keys of a wrong length): " +
+		"then per encrypted container (both curves alternating, random key/passphrase, Argon2 memory 8..31 KiB, 1..3 lanes, 1..2 passes; every 4th and 20% of the others with a key of a wrong length): " +
 		"the output itself, 5-7 other passphrases, every other banner, ~55 per-field alterations, ~15 re-encodings that keep every field, " +
 		"every byte position of the protobuf body x 2 values, every byte position of the PEM text, 12 deletions/insertions/truncations; " +
 		"trials whose (unauthenticated) Argon2 parameters would cost > 32 MiB or > 64 passes are not run (counted in skipped_expensive_trials); " +
 		"non-trivial = accepted unmarshal / produced marshal / container with a key of the curve's length; distinct by literal")
+}
+
+func kcDecrypt(pass, text []byte) (curve cert.Curve, key []byte, err error, panicked bool) {
+	defer func() {
+		if r := recover(); r != nil {
+			panicked = true
+		}
+	}()
+	curve, key, _, err = cert.DecryptAndUnmarshalSigningPrivateKey(pass, text)
+	return
 }
 
 func kcOptStr(s *string) string {
